@@ -11,12 +11,17 @@
                      "next":{"t":"last"|"broken"|"next","href":str}} | {"kind":"fail","err":str}]…]}
        — the REAL client path: time-window query, pagination, parse_dates, conversion (model of C20 ∘ C15)
   BP = {"type":"ideal"|"two","capfn":null|"fit"|[a,b,c,d],"noise":f,"ts":f,"calc":str}
+    {"op":"tz","batches":[{"start":R,"period":f,"V":f,"maxp":f,"max_len":int|null,"ff":bool,"bp":BP|null,
+                           "pilot":f,"nmax":nat,"docs":[{"c":R,"d":R,"kwh":f,"sid":str,"space":str}…]}…]}
+       — several `get_evs` calls in one process on aware datetimes of any tzinfo; R = {"w":f,"o":f}
+         (wall-clock seconds, utcoffset seconds); answer {"batches":[answer of each call…]}
   (f = IEEE bit pattern of a double).  Answers are canonical: EVs in input order, events
   sorted by (arrival, session).
 -/
 import AcnModel.WireModels
 import AcnModel.Sessions
 import AcnModel.SessionsE2E
+import AcnModel.SessionsTz
 open Lean Acn Acn.Wire Acn.Battery Acn.Evse Acn.Sessions
 
 def errStr : Sessions.Err → String
@@ -81,6 +86,33 @@ def parseSample (j : Json) : Except String (Sample Float) := do
   match ← asFs j with
   | [a, d, e] => pure { arrival := a, duration := d, energy := e }
   | _ => throw "sample: expected 3 numbers"
+
+/-! ### aware datetimes of any tzinfo, several batches -/
+section tz
+open Acn.SessionsTz
+
+def parseReading (j : Json) : Except String (Reading Float) := do
+  pure { wall := ← getF j "w", off := ← getF j "o" }
+
+def parseWDoc (j : Json) : Except String (WDoc Float) := do
+  pure { connect := ← parseReading (← j.getObjVal? "c"), disconnect := ← parseReading (← j.getObjVal? "d"),
+         kWh := ← getF j "kwh", session := ← getStr j "sid", space := ← getStr j "space" }
+
+def parseBatch (j : Json) : Except String (Batch Float × Float × Nat) := do
+  let b : Batch Float :=
+    { start := ← parseReading (← j.getObjVal? "start"), docs := ← (← getArr j "docs").mapM parseWDoc,
+      period := ← getF j "period", V := ← getF j "V", maxPower := ← getF j "maxp",
+      maxLen := ← getOpt j "max_len" (fun v => v.getInt?), bp := ← parseBP (← j.getObjVal? "bp"),
+      ff := ← getBool j "ff" }
+  pure (b, ← getF j "pilot", ← getNat j "nmax")
+
+def handleTz (j : Json) : Except String Json := do
+  let bs ← (← getArr j "batches").mapM parseBatch
+  let rs := runBatches (bs.map (·.1))
+  pure (Json.mkObj [("batches", Json.arr ((bs.zip rs).map fun (p, r) =>
+    answer p.2.1 p.1.V p.1.period p.2.2 r).toArray)])
+
+end tz
 
 /-! ### end to end (client of C20 ∘ converter) -/
 section e2e
@@ -172,6 +204,7 @@ end e2e
 def handle (j : Json) : Except String Json := do
   let op ← getStr j "op"
   if op == "e2e" then handleE2E j
+  else if op == "tz" then handleTz j
   else if op == "fit" then
     let E ← getF j "E"; let T ← getF j "T"; let V ← getF j "V"; let P ← getF j "P"
     let n ← getNat j "n"
